@@ -88,8 +88,52 @@ class Slice:
                     if b < n and (b == a or b not in self.pd[a]):
                         self.cdep[b].add(a)
 
+    def _points_to(self):
+        """flow-insensitive may-point-to between locals: x -> set of locals whose storage x (or a part of x) may reference"""
+        blocks = self.body['blocks']
+        pts = {}
+        changed = True
+
+        def add(dst, srcs):
+            nonlocal changed
+            cur = pts.setdefault(dst, set())
+            n = len(cur)
+            cur |= srcs
+            if len(cur) != n:
+                changed = True
+        while changed:
+            changed = False
+            for b in blocks:
+                for st in b['stmts']:
+                    if st['s'] != 'assign':
+                        continue
+                    rv = st['rvalue']
+                    dst = st['place']['l']
+                    if rv['rv'] in ('ref', 'rawptr'):
+                        pl = rv['place']
+                        if 'deref' in pl['p']:
+                            add(dst, set(pts.get(pl['l'], set())))
+                        else:
+                            add(dst, {pl['l']})
+                    else:
+                        for u in rvalue_locals(rv):
+                            if u in pts:
+                                add(dst, set(pts[u]))
+                t = b['term']
+                if t['t'] == 'call':
+                    srcs = set()
+                    for a in t['args']:
+                        ls = set()
+                        _operand_locals(a, ls)
+                        for u in ls:
+                            srcs |= pts.get(u, set())
+                    if srcs:
+                        add(t['dest']['l'], srcs)
+        self.pts = pts
+
     def _defs(self):
         """local -> list of (block, set of locals used, kind)"""
+        self._points_to()
         self.defs = {}
         blocks = self.body['blocks']
         for i, b in enumerate(blocks):
@@ -100,12 +144,13 @@ class Slice:
                     tgt = pl['l']
                     if pl['p']:
                         used = set(used)
-                        if 'deref' in pl['p']:
-                            # write through a reference: the pointer's referent is tracked under the pointer local
-                            pass
                         used.add(tgt)  # partial update keeps old content
                         _place_index_locals(pl, used)
                     self.defs.setdefault(tgt, []).append((i, used, 'assign'))
+                    if 'deref' in pl['p']:
+                        # write through a pointer: may update every local the pointer may reference
+                        for tl in self.pts.get(tgt, ()):
+                            self.defs.setdefault(tl, []).append((i, set(used) | {tl}, 'assign-through'))
             t = b['term']
             if t['t'] == 'call':
                 used = set()
@@ -115,11 +160,13 @@ class Slice:
                 if t['dest']['p']:
                     used.add(tgt)
                 self.defs.setdefault(tgt, []).append((i, used, 'call'))
-                # &mut arguments may be written by the callee: they depend on all arguments
+                # reference arguments may be written by the callee: referents depend on all arguments
                 for a in t['args']:
                     pl = a.get('copy') or a.get('move') if isinstance(a, dict) else None
                     if pl is not None:
                         self.defs.setdefault(pl['l'], []).append((i, set(used), 'call-mut'))
+                        for tl in self.pts.get(pl['l'], ()):
+                            self.defs.setdefault(tl, []).append((i, set(used) | {tl}, 'call-mut'))
 
     def branch_locals(self, blk):
         t = self.body['blocks'][blk]['term']
